@@ -18,8 +18,9 @@ def run_driver(ctx, binp, args, label, timeout=1800):
     if rc == 3 or "HARNESS-ERROR" in (o or ""):
         raise Infra("codec driver error (%s): %s" % (label, o[-1500:]))
     if rc != 0:
-        if rc is not None and ("panic:" in o or "goroutine " in o):
-            # a panic that escaped the driver's own recover: still an observation on the real code
+        if rc is not None and "fatal error:" in o and "goroutine " in o:
+            # an unrecoverable runtime failure (stack exhaustion, ...) while the real decoders ran: an observation on the real code.
+            # (ordinary panics of the real code are recovered and reported by the driver; its own panics are HARNESS-ERRORs)
             rp = ctx.save_replay("panic-%s-seed%d.txt" % (label, ctx.seed), o[-20000:])
             ctx.report("panic:" + label, "real code panicked in cmd/codec (%s): %s" % (label, o.strip().splitlines()[:3]), rp)
             return out, None
